@@ -167,20 +167,20 @@ theorem binOp_beq (a b : BinOp) : (a == b) = decide (a = b) := by
   cases a <;> cases b <;> rfl
 
 theorem lowered_iff {op : BinOp} {r : Expr} :
-    ((op == .and || op == .or) && !isAtom r) = true ↔ ((op = .and ∨ op = .or) ∧ isAtom r = false) := by
-  simp [binOp_beq]
+    ((op == .and || op == .or) && !trivialRhs r) = true ↔ ((op = .and ∨ op = .or) ∧ isAtom r = false) := by
+  simp [binOp_beq, trivialRhs_eq_isAtom]
 
 theorem dec_and_lowered {ty : Ty} {l r : Expr} (h : isAtom r = false) (n : Nat) :
     dec (.bin .and ty l r) n =
       ⟨(decImm l n).L, .ite (decImm l n).c (anf r (decImm l n).n ret).1 (.prim (.bool false)),
         (anf r (decImm l n).n ret).2⟩ := by
-  simp [dec, h, binOp_beq, decImm]
+  simp [dec, trivialRhs_eq_isAtom, h, binOp_beq, decImm]
 
 theorem dec_or_lowered {ty : Ty} {l r : Expr} (h : isAtom r = false) (n : Nat) :
     dec (.bin .or ty l r) n =
       ⟨(decImm l n).L, .ite (decImm l n).c (.prim (.bool true)) (anf r (decImm l n).n ret).1,
         (anf r (decImm l n).n ret).2⟩ := by
-  simp [dec, h, binOp_beq, decImm]
+  simp [dec, trivialRhs_eq_isAtom, h, binOp_beq, decImm]
 
 structure HypD (D : List String) (d : Option Expr) (n N : Nat) : Prop where
   frag : fragDflt d = true
